@@ -359,6 +359,14 @@ def St.apply (σ : St) : Rec → St
 
 def St.applyAll (σ : St) (rs : List Rec) : St := rs.foldl St.apply σ
 
+/-- a run's records when the manifest commit of record number `k` fails and the code goes on: nothing of
+that record is persisted or applied (`CommitFamilyEditLog` returns before touching the version), every
+other record is committed. This is what `family.rollup()` / `installCompactionResults` /
+`cleanReferenceFiles` do as long as they discard the result of `commitEditLog` (regenerated facts
+`rollupSourceCommitResult`, `installCommitResult`, `cleanReferenceCommitResult`). -/
+def St.applyDropping (σ : St) (rs : List Rec) (k : Nat) : St := σ.applyAll (rs.eraseIdx k)
+
+
 /-- `rollupMap[interval]` of `rollup()` for source family `fam` (the `targetFiles` map of
 `doRollupWork` removes duplicates) -/
 def filesOf (pending : List (Key × Iv)) (fam : Nat) (i : Iv) : List Key :=
@@ -404,6 +412,21 @@ def rollupRecs (σ : St) (fam : Nat) (ivs : List Iv) (avail : Iv → Bool) (dvs 
   let (ts, ds) := tPhase σ.pending fam avail σ ivs
   let s := if ds = [] then [] else [Rec.delRollup ds]
   ts ++ s ++ dPhase σ.pending fam (fun i => avail i && decide (i ∈ ivs)) dvs
+
+/-- the committed records of a complete rollup run of family `fam` whose `k`-th manifest commit fails, as
+a function of what the code does with the result of `commitEditLog`:
+* `tChecked` (`installCompactionResults` gives the failure back, `doRollupWork` fails, `rollup()`
+  `continue`s): a failed MERGE record makes its interval "not available in this attempt";
+* `sChecked` (`rollup()` returns when the source commit failed): a failed DELETE-ROLLUP record ends the run;
+* otherwise the run goes on without the record. -/
+def rollupRecsFailing (tChecked sChecked : Bool) (σ : St) (fam : Nat) (ivs : List Iv) (avail : Iv → Bool)
+    (dvs : List Iv) (k : Nat) : List Rec :=
+  let all := rollupRecs σ fam ivs avail dvs
+  match all[k]? with
+  | some (.merge i _) =>
+    if tChecked then rollupRecs σ fam ivs (fun j => avail j && decide (j ≠ i)) dvs else all.eraseIdx k
+  | some (.delRollup _) => if sChecked then all.take k else all.eraseIdx k
+  | _ => all.eraseIdx k
 
 /-- the operations of C04's histories -/
 inductive Op where
